@@ -41,6 +41,8 @@ def unit_probe(rng, acc):
     for a in assets:
         r = rng.random()
         entries[a] = None if r < 0.15 else base + pd.Timedelta(days=rng.randint(-30, 30), minutes=rng.choice([0, 0, 1, 870, 1260]))
+    if rng.random() < 0.12:
+        entries[rng.choice(assets)] = pd.NaT           # "no entry date" as a date table gives it (a null timestamp)
     if rng.random() < 0.15:
         # "not listed yet" placeholders far in the future (pandas keeps such instants at a coarser resolution)
         entries[rng.choice(assets)] = pd.Timestamp(rng.choice(['2999-01-01', '2300-06-30 14:30', '9000-12-31']), tz='UTC')
@@ -52,7 +54,7 @@ def unit_probe(rng, acc):
                        e + pd.Timedelta(minutes=1)]
     for t in probes:
         got = uni.get_assets(t)
-        want = [a for a in assets if entries[a] is not None and entries[a] <= t]
+        want = [a for a in assets if entries[a] is not None and entries[a] is not pd.NaT and entries[a] <= t]
         if sorted(got) != sorted(want) or len(got) != len(set(got)):
             bad = sorted(set(got) ^ set(want))
             a = bad[0] if bad else None
@@ -68,12 +70,18 @@ def unit_probe(rng, acc):
     order = sorted(probes) if rng.random() < 0.7 else list(probes)
     for t in order:
         got_w = model(t)
-        want = {a: sig_w for a in assets if entries[a] is not None and entries[a] <= t}
+        want = {a: sig_w for a in assets if entries[a] is not None and entries[a] is not pd.NaT and entries[a] <= t}
         if dict(got_w) != want:
             raise core.Violation(PROP, 'single-signal-model/members', 'SingleSignalAlphaModel at %s weights %s, the universe holds %s '
                                  '(entries %s)' % (t, sorted(got_w), sorted(want), {k: str(v) for k, v in entries.items()}), {})
+        got_w.clear()                      # the caller's dict: emptied, extended - the next answer is unaffected
+        got_w['EQ:SCRIBBLE'] = 9.0
         acc.count('C19:alpha_model_probes')
-    st = StaticUniverse(list(assets))
+    assets = list(assets)
+    if rng.random() < 0.5:
+        rng.shuffle(assets)                # the caller's list is not in alphabetical order - and stays as the caller wrote it
+    caller_list = list(assets)
+    st = StaticUniverse(caller_list)
     for t in probes[:3]:
         if list(st.get_assets(t)) != assets:
             raise core.Violation(PROP, 'static-universe', 'StaticUniverse returned %s for %s' % (st.get_assets(t), assets), {})
@@ -87,6 +95,9 @@ def unit_probe(rng, acc):
             sig.append(a, rng.uniform(5, 50))
         if rng.random() < 0.5:
             sig.update_assets(base)
+        if caller_list != assets:
+            raise core.Violation(PROP, 'static-universe/callers-list-reordered', 'the list %s the caller built the universe from reads %s '
+                                 'after a signal was built on that universe' % (assets, caller_list), {})
         for t in probes[:3]:
             if list(st.get_assets(t)) != assets:
                 raise core.Violation(PROP, 'static-universe/after-signal-append', 'StaticUniverse configured with %s returns %s '
@@ -117,9 +128,14 @@ def unit_probe(rng, acc):
         if dict(out_f) != dict(d):
             raise core.Violation(PROP, 'fixed-weight-optimiser/reuse', 'fixed-weight optimiser returned %s for %s on call %d of the '
                                  'same object' % (out_f, d, step + 1), {})
+        out_e.clear()                                   # the caller's copy of the first answer, emptied and extended ...
+        out_e['EQ:SCRIBBLE'] = 1.0
+        out_e = equal(base, initial_weights=d)          # ... and the same question asked again
         if set(out_e) != set(d) or any(abs(v - scale / len(d)) > 1e-12 * max(scale, 1e-300) for v in out_e.values()):
             raise core.Violation(PROP, 'equal-weight/reuse', 'equal-weight optimiser returned %s for keys %s on call %d of the same '
                                  'object (the dict was changed in place between calls)' % (out_e, sorted(d), step + 1), {})
+        out_e.clear()
+        out_f.clear() if out_f is not d else None
         # change the dict in place: drop one key (if possible), add a new one, change a value
         if len(d) > 1 and rng.random() < 0.7:
             d.pop(rng.choice(sorted(d)))
